@@ -10,7 +10,7 @@ if [ ! -d $WT ]; then git -C /repo worktree add --detach $WT HEAD >/dev/null 2>&
 git -C $WT checkout -q --detach "$(git -C /repo rev-parse HEAD)" && git -C $WT checkout -q -- . && git -C $WT clean -fdq
 mkdir -p $TB && rsync -a --delete --exclude .git --exclude bin --exclude replays --exclude evidence /verif/ $TB/ && mkdir -p $TB/bin $TB/evidence
 sed -i "s#=> /repo#=> $WT#" $TB/harness/go.mod
-if ! git -C $WT apply "$PATCH" 2>/tmp/mt_apply.err; then echo "{\"apply\": \"failed: $(tr -d '\"\n' </tmp/mt_apply.err | cut -c1-200)\"}" > "$OUT"; cat "$OUT"; exit 3; fi
+if ! git -C $WT apply "$PATCH" 2>/tmp/mt_apply.err && ! git -C $WT apply -3 "$PATCH" 2>>/tmp/mt_apply.err; then echo "{\"apply\": \"failed: $(tr -d '\"\n' </tmp/mt_apply.err | cut -c1-200)\"}" > "$OUT"; cat "$OUT"; exit 3; fi
 echo "{" > "$OUT"
 first=1
 for id in "$@"; do
